@@ -23,6 +23,7 @@ import contextlib
 import hashlib
 import json
 import os
+import random
 import re as _re
 import shutil
 import sys
@@ -58,12 +59,16 @@ PROPOSED_KNOWN = [
 ]
 
 # --------------------------------------------------------------------------- the synthetic world
-CHROMS = (("chr1", 40000, 32), ("chr2", 30000, 24), ("chrX", 30000, 24), ("chrY", 12000, 8))
+CHROMS = (("chr1", 46000, 64), ("chr2", 30000, 24), ("chrX", 30000, 24), ("chrY", 12000, 8))
+# index of the first bin of each chromosome's second segment.  The boundary lies inside a gene with (2, 4) on-target
+# bins on its sides on chr1 and chrX and (5, 1) on chr2 (breaks -m, genemetrics -m); chrX's second segment starts at
+# 11600, inside PAR1 of grch38 (chrX:10001-2781479), so --diploid-parx-genome matters.
+SPLIT = {"chr1": 34, "chr2": 14, "chrX": 18, "chrY": 99}
 WORLD_SEED = 20261001
 
 
 def _bins():
-    """[(chrom, start, end, gene, on_target)] -- 200-bp target bins, 1500-bp antitarget bins, 100-bp gaps"""
+    """[(chrom, start, end, gene, on_target, second_half)] -- 200-bp target bins, 1500-bp antitarget bins, 100-bp gaps"""
     out = []
     for chrom, _len, n in CHROMS:
         p = 1000
@@ -71,7 +76,7 @@ def _bins():
             on = k % 4 != 3
             ln = 200 if on else 1500
             gene = f"{chrom[3:]}G{k // 8}" if on else "Antitarget"
-            out.append((chrom, p, p + ln, gene, on))
+            out.append((chrom, p, p + ln, gene, on, k >= SPLIT[chrom]))
             p += ln + 100
     return out
 
@@ -110,10 +115,10 @@ def build_world(d):
     bins = _bins()
     # baits: target bins, some split in two abutting halves, one long tiled one (for --split), multi-accession names
     baits = []
-    for chrom, s, e, gene, on in bins:
+    for chrom, s, e, gene, on, _h in bins:
         if on:
             baits.append((chrom, s, e, gene))
-    baits.append(("chr1", 30000, 31200, "1LONG"))
+    baits.append(("chr1", 43000, 44200, "1LONG"))
     baits.append(("chr2", 26000, 26700, "ref|NM_1|ref|NM_2,ens|ENST9"))
     baits.sort(key=lambda r: (r[0], r[1]))
     put("baits.bed", "baits", "".join(f"{c}\t{s}\t{e}\t{g}\n" for c, s, e, g in baits))
@@ -127,15 +132,15 @@ def build_world(d):
     put("access.bed", "access", "".join(f"{c}\t500\t{ln // 2}\n{c}\t{ln // 2 + 6000}\t{ln}\n" for c, ln, _n in CHROMS))
     put("excl.bed", "exclude", "chr1\t3000\t3500\nchr2\t100\t1200\n")
     put("excl2.bed", "exclude", "chrX\t5000\t9000\n")
-    tbins = [(c, s, e, g) for c, s, e, g, on in bins if on]
-    abins = [(c, s, e, g) for c, s, e, g, on in bins if not on]
+    tbins = [(c, s, e, g) for c, s, e, g, on, _h in bins if on]
+    abins = [(c, s, e, g) for c, s, e, g, on, _h in bins if not on]
     put("targets.bed", "targets", design="W", text="".join(f"{c}\t{s}\t{e}\t{g}\n" for c, s, e, g in tbins))
     put("antitargets.bed", "antitargets", design="W", text="".join(f"{c}\t{s}\t{e}\t{g}\n" for c, s, e, g in abins))
 
     # coverage tables
     def cov(sample, female, levels, noise, which):
         rows = []
-        for c, s, e, g, on in bins:
+        for c, s, e, g, on, half in bins:
             if on != which:
                 continue
             base = 0.0
@@ -144,7 +149,6 @@ def build_world(d):
             elif c == "chrY":
                 base = -6.0 if female else -1.0
             lvl = levels.get(c, (0.0, 0.0))
-            half = (s > dict((cc, ll) for cc, ll, _ in CHROMS)[c] // 2)
             log2 = round(float(base + lvl[1 if half else 0] + rs.normal(0, noise)), 4)
             rows.append((c, s, e, g, log2, round(float(2 ** log2 * 90), 3)))
         arr = CNA.from_rows(rows, ["chromosome", "start", "end", "gene", "log2", "depth"], {"sample_id": sample})
@@ -159,7 +163,7 @@ def build_world(d):
         put(f"{sample}.antitargetcoverage.cnn", "acnn")
     # reference over the same bins (gc, rmask, spread as the pooled reference writes them)
     rrows = []
-    for c, s, e, g, on in bins:
+    for c, s, e, g, on, _h in bins:
         log2 = 0.0 if c not in ("chrY",) else -1.0
         rrows.append((c, s, e, g, round(float(log2 + rs.normal(0, 0.05)), 4), 90.0,
                       float(rs.choice([0.35, 0.4, 0.45, 0.5, 0.55, 0.6])), float(rs.choice([0.0, 0.1, 0.2, 0.5])),
@@ -175,19 +179,22 @@ def build_world(d):
         for c, ln, _n in CHROMS:
             sub = [b for b in bins if b[0] == c]
             recs = []
-            for (_c, s, e, g, on) in sub:
+            for (_c, s, e, g, on, half) in sub:
                 base = (0.0 if female else -1.0) if c == "chrX" else ((-6.0 if female else -1.0) if c == "chrY" else 0.0)
-                lvl = levels.get(c, (0.0, 0.0))[1 if s > ln // 2 else 0]
+                lvl = levels.get(c, (0.0, 0.0))[1 if half else 0]
                 log2 = round(float(base + lvl + rs.normal(0, 0.1)), 4)
                 recs.append((c, s, e, g, log2, round(float(2 ** log2 * 90), 3), round(float(rs.uniform(0.4, 1.0)), 3)))
-            # one very-low-coverage bin and one outlier per sample (for --drop-low-coverage / --drop-outliers)
+            # one very-low-coverage bin, one gross and one moderate outlier (--drop-low-coverage / --drop-outliers 0, 2, 4, 10)
             if c == "chr1":
                 r = recs[5]
                 recs[5] = r[:4] + (-22.0, 0.0, r[6])
                 r = recs[9]
                 recs[9] = r[:4] + (4.5, round(2 ** 4.5 * 90, 3), r[6])
+                r = recs[21]
+                recs[21] = r[:4] + (1.35, round(2 ** 1.35 * 90, 3), r[6])
             rows += recs
-            for part in ([r for r in recs if r[1] <= ln // 2], [r for r in recs if r[1] > ln // 2]):
+            nfirst = sum(1 for b in sub if not b[5])
+            for part in (recs[:nfirst], recs[nfirst:]):
                 if not part:
                     continue
                 ws = sum(r[6] for r in part)
@@ -219,16 +226,16 @@ def build_world(d):
     vcf = ["##fileformat=VCFv4.2", '##FORMAT=<ID=GT,Number=1,Type=String,Description="Genotype">',
            '##FORMAT=<ID=AD,Number=R,Type=Integer,Description="Allelic depths">',
            '##FORMAT=<ID=DP,Number=1,Type=Integer,Description="Depth">',
-           '##INFO=<ID=SOMATIC,Number=0,Type=Flag,Description="Somatic">',
-           "##PEDIGREE=<Derived=S1,Original=S1N>",
-           "#CHROM\tPOS\tID\tREF\tALT\tQUAL\tFILTER\tINFO\tFORMAT\tS1\tS1N"]
-    for c, s, e, g, on in bins:
+           '##INFO=<ID=SOMATIC,Number=0,Type=Flag,Description="Somatic">'] \
+        + [f"##contig=<ID={c},length={ln}>" for c, ln, _n in CHROMS] \
+        + ["#CHROM\tPOS\tID\tREF\tALT\tQUAL\tFILTER\tINFO\tFORMAT\tS1N\tS1"]   # the normal comes first: -i / -n matter
+    for c, s, e, g, on, _h in bins:
         if c == "chrY":
             continue
         for pos in (s + 20, s + 120):
             dp = int(rs.choice([12, 25, 40, 80]))
             het_n = rs.rand() < 0.7
-            shift = 0.18 if (c == "chr1" and s > 20000) else 0.0
+            shift = 0.18 if (c == "chr1" and _h) else 0.0
             af = float(np.clip((0.5 + shift * (1 if rs.rand() < 0.5 else -1) + rs.normal(0, 0.04)) if het_n
                                else (0.97 if rs.rand() < 0.5 else 0.03), 0.0, 1.0))
             alt = int(round(dp * af))
@@ -237,8 +244,8 @@ def build_world(d):
             nalt = int(round(ndp * (0.5 if het_n else (1.0 if af > 0.5 else 0.0))))
             gt_n = "0/1" if het_n else ("1/1" if af > 0.5 else "0/0")
             info = "SOMATIC" if rs.rand() < 0.05 else "."
-            vcf.append(f"{c}\t{pos}\t.\tA\tG\t50\tPASS\t{info}\tGT:AD:DP\t{gt_t}:{dp - alt},{alt}:{dp}\t"
-                       f"{gt_n}:{ndp - nalt},{nalt}:{ndp}")
+            vcf.append(f"{c}\t{pos}\t.\tA\tG\t50\tPASS\t{info}\tGT:AD:DP\t{gt_n}:{ndp - nalt},{nalt}:{ndp}\t"
+                       f"{gt_t}:{dp - alt},{alt}:{dp}")
     put("S1.vcf", "vcf", "\n".join(vcf) + "\n")
     # a SEG file with two samples, numeric chromosome names, log10 values
     seg = ["ID\tchrom\tloc.start\tloc.end\tnum.mark\tseg.mean"]
@@ -291,6 +298,7 @@ def _variants():
     # target
     add("target", "plain", [], [1, 0, 0], ["default", "new", "sub"])
     add("target", "split", [BO("split", "--split"), KV("avg_size", "-a", 100)], [1, 0, 0], ["new"])
+    add("target", "short-names", [BO("short_names", "--short-names")], [1, 0, 0], ["new"])
     add("target", "annotate-short-split", [BO("short_names", "--short-names"), BO("split", "--split"), KV("avg_size", "--avg-size", 150)],
         [1, 1, 0], ["new", "deep"])
     # access
@@ -299,8 +307,8 @@ def _variants():
     add("access", "gap7000-1excl", [KV("min_gap_size", "--min-gap-size", 7000)], [1, 1, 0], ["new", "default"])
     # antitarget
     add("antitarget", "plain", [], [1, 0, 0], ["default", "new"])
-    add("antitarget", "access-sizes", [KV("avg_size", "-a", 2000), KV("min_size", "-m", 300)], [1, 1, 0], ["new", "sub", "default"])
-    add("antitarget", "access-long", [KV("avg_size", "--avg-size", 3000), KV("min_size", "--min-size", 100)], [1, 1, 0], ["new"])
+    add("antitarget", "access-sizes", [KV("avg_size", "-a", 2000), KV("min_size", "-m", 1800)], [1, 1, 0], ["new", "sub", "default"])
+    add("antitarget", "access-long", [KV("avg_size", "--avg-size", 3000), KV("min_size", "--min-size", 1000)], [1, 1, 0], ["new"])
     # reference (flat)
     add("reference", "flat", [], [1, 1, 0], ["default", "new", "clash", "deep"], mode="flat")
     add("reference", "flat-fasta-y", [BO("male_reference", "-y")], [1, 1, 1], ["default", "new"], mode="flat")
@@ -354,10 +362,16 @@ def _variants():
     add("segment", "none-all-cpus", [KV("method", "-m", "none"), BARE("processes", "-p")], [1, 0, 0], ["new"])
     add("segment", "none-processes-long", [KV("method", "-m", "none"), KV("processes", "--processes", 3)], [1, 0, 0], ["new"])
     add("segment", "haar-vcf", [KV("method", "-m", "haar"), KV("sample_id", "-i", "S1"), KV("normal_id", "-n", "S1N"),
-                                KV("min_variant_depth", "--min-variant-depth", 30), BARE("zygosity_freq", "-z")], [1, 1, 0], ["new"])
+                                KV("min_variant_depth", "--min-variant-depth", 35), BARE("zygosity_freq", "-z")], [1, 1, 0], ["new"])
     add("segment", "none-vcf-zyg", [KV("method", "-m", "none"), KV("sample_id", "--sample-id", "S1"), KV("normal_id", "--normal-id", "S1N"),
                                     KV("zygosity_freq", "--zygosity-freq", 0.3)], [1, 1, 0], ["new", "default"])
     add("segment", "haar-vcf-defaults", [KV("method", "-m", "haar")], [1, 1, 0], ["new"])
+    add("segment", "none-vcf-sample-only", [KV("method", "-m", "none"), KV("sample_id", "-i", "S1")], [1, 1, 0], ["new"])
+    add("segment", "none-vcf-normal-only", [KV("method", "-m", "none"), KV("normal_id", "-n", "S1N")], [1, 1, 0], ["new"])
+    add("segment", "none-vcf-zygosity", [KV("method", "-m", "none"), KV("sample_id", "-i", "S1"), KV("zygosity_freq", "-z", 0.4)],
+        [1, 1, 0], ["new"])
+    add("segment", "none-vcf-depth", [KV("method", "-m", "none"), KV("sample_id", "-i", "S1"), KV("normal_id", "-n", "S1N"),
+                                      KV("min_variant_depth", "--min-variant-depth", 35)], [1, 1, 0], ["new"])
     # call
     add("call", "plain", [], [1, 0, 0], ["default", "new", "clash", "sub"])
     add("call", "clonal-purity-ploidy-y-male", [KV("method", "-m", "clonal"), KV("purity", "--purity", 0.7), KV("ploidy", "--ploidy", 3),
@@ -379,11 +393,17 @@ def _variants():
     add("call", "center-biweight", [KV("center", "--center", "biweight")], [1, 0, 0], ["new"])
     add("call", "center-mean-thresholds", [KV("center", "--center", "mean"), EQ("thresholds", "-t", "-1,0,1")], [1, 0, 0], ["new"])
     add("call", "thresholds-long", [EQ("thresholds", "--thresholds", "-1.2,-0.3,0.3,0.8"), KV("ploidy", "--ploidy", 4)], [1, 0, 0], ["new"])
-    add("call", "vcf", [KV("sample_id", "-i", "S1"), KV("normal_id", "-n", "S1N"), KV("min_variant_depth", "--min-variant-depth", 30),
+    add("call", "vcf", [KV("sample_id", "-i", "S1"), KV("normal_id", "-n", "S1N"), KV("min_variant_depth", "--min-variant-depth", 35),
                         BARE("zygosity_freq", "-z")], [1, 1, 0], ["new", "default"])
     add("call", "vcf-clonal-purity", [KV("method", "-m", "clonal"), KV("purity", "--purity", 0.8), KV("sample_sex", "--gender", "f"),
                                       KV("zygosity_freq", "--zygosity-freq", 0.3)], [1, 1, 0], ["new"])
     add("call", "vcf-defaults", [], [1, 1, 0], ["new"])
+    add("call", "vcf-sample-only", [KV("sample_id", "--sample-id", "S1")], [1, 1, 0], ["new"])
+    add("call", "vcf-normal-only", [KV("normal_id", "--normal-id", "S1N")], [1, 1, 0], ["new"])
+    add("call", "vcf-depth", [KV("sample_id", "-i", "S1"), KV("normal_id", "-n", "S1N"), KV("min_variant_depth", "--min-variant-depth", 35)],
+        [1, 1, 0], ["new"])
+    add("call", "vcf-zygosity", [KV("sample_id", "-i", "S1"), KV("zygosity_freq", "-z", 0.4)], [1, 1, 0], ["new"])
+    add("call", "clonal-male-ref-parx", [KV("method", "-m", "clonal"), BO("male_reference", "-y"), G38], [1, 0, 0], ["new"])
     add("call", "purity-out-of-range", [KV("purity", "--purity", 1.5)], [1, 0, 0], ["new", "default"])
     # segmetrics
     add("segmetrics", "no-statistic", [], [1, 1, 0], ["default", "new"])
@@ -403,12 +423,12 @@ def _variants():
     add("segmetrics", "alpha-out-of-range", [BO("ci", "--ci"), KV("alpha", "-a", 1.5)], [1, 1, 0], ["new", "default"])
     # genemetrics
     add("genemetrics", "plain", [], [1, 0, 0], ["default", "new"])
-    add("genemetrics", "segments-options", [KV("threshold", "-t", 0.3), KV("min_probes", "-m", 2), BO("drop_low_coverage", "--drop-low-coverage"),
+    add("genemetrics", "segments-options", [KV("threshold", "-t", 0.3), KV("min_probes", "-m", 6), BO("drop_low_coverage", "--drop-low-coverage"),
                                             BO("male_reference", "-y"), KV("sample_sex", "-x", "female")], [1, 1, 0], ["default", "new", "sub"])
     add("genemetrics", "segments-long-male-parx", [KV("threshold", "--threshold", 0.1), KV("min_probes", "--min-probes", 1),
                                                    KV("sample_sex", "--sample-sex", "m"), G38], [1, 1, 0], ["new"])
     add("genemetrics", "bins-threshold", [KV("threshold", "-t", 0.5)], [1, 0, 0], ["new"])
-    add("genemetrics", "bins-min-probes", [KV("min_probes", "-m", 6)], [1, 0, 0], ["new"])
+    add("genemetrics", "bins-min-probes", [KV("min_probes", "-m", 8)], [1, 0, 0], ["new"])
     add("genemetrics", "bins-drop-low", [BO("drop_low_coverage", "--drop-low-coverage")], [1, 0, 0], ["new"])
     add("genemetrics", "bins-male-ref", [BO("male_reference", "--male-reference")], [1, 0, 0], ["new"])
     add("genemetrics", "statistics-flags", [BO("mean", "--mean"), BO("median", "--median"), BO("mode", "--mode"), BO("p_ttest", "--ttest"),
@@ -443,6 +463,11 @@ def _variants():
     add("export bed", "parx-sample-id-long-female", [G38, KV("sample_id", "--sample-id", "X1"), KV("sample_sex", "--gender", "Female"),
                                                      KV("show", "--show", "all")], [1, 0, 0], ["new"])
     add("export bed", "all", [KV("show", "--show", "all")], [1, 0, 0], ["new"])
+    add("export bed", "ploidy-3", [KV("ploidy", "--ploidy", 3)], [1, 0, 0], ["new"])
+    add("export bed", "variant-male-y", [KV("show", "--show", "variant"), KV("sample_sex", "-x", "male"), BO("male_reference", "-y")],
+        [1, 0, 0], ["new"])
+    add("export bed", "variant-y-parx", [KV("show", "--show", "variant"), BO("male_reference", "-y"), G38], [1, 0, 0], ["new"])
+    add("export bed", "variant-female", [KV("show", "--show", "variant"), KV("sample_sex", "--sample-sex", "x")], [1, 0, 0], ["new"])
     add("export bed", "all-male-ref", [KV("show", "--show", "all"), BO("male_reference", "--male-reference")], [1, 0, 0], ["new"])
     # export vcf
     add("export vcf", "plain", [], [1, 0, 0], ["default", "new"])
@@ -451,6 +476,7 @@ def _variants():
     add("export vcf", "parx-male", [G38, KV("sample_sex", "--sample-sex", "y")], [1, 0, 0], ["new"])
     add("export vcf", "male-ref", [BO("male_reference", "--haploid-x-reference")], [1, 0, 0], ["new"])
     add("export vcf", "cnr", [], [1, 1, 0], ["new"])
+    add("export vcf", "y-parx", [BO("male_reference", "-y"), G38], [1, 0, 0], ["new"])
     # export seg
     add("export seg", "two", [], [2, 0, 0], ["default", "new"])
     add("export seg", "enumerate", [BO("enumerate_chroms", "--enumerate-chroms")], [1, 0, 0], ["new", "default"])
@@ -475,7 +501,15 @@ def menu():
             world = build_world(d)
         finally:
             shutil.rmtree(d, ignore_errors=True)
-        _MENU = {"world": [world[k] for k in sorted(world)], "variants": _variants()}
+        base = _variants()
+        for v in base:
+            v["abl"] = [0, 0]
+        abl = []
+        for k, v in enumerate(base, start=1):
+            for i in range(len(v["flags"])):
+                abl.append(dict(v, tag=f"{v['tag']}~{v['flags'][i]['flag']}", flags=v["flags"][:i] + v["flags"][i + 1:], osels=["new"],
+                                abl=[k, i + 1]))
+        _MENU = {"world": [world[k] for k in sorted(world)], "variants": base + abl, "nbase": len(base)}
     return _MENU
 
 
@@ -754,19 +788,20 @@ def _steps(hist):
     return [tlaval.to_py(h) for h in hist]
 
 
-def _consts(max_steps, pre, only=()):
+def _consts(max_steps, pre, only=(), ablation=False):
     return {"MaxSteps": max_steps, "Pre": "{" + ", ".join(map(str, pre)) + "}",
-            "OnlyCmds": "{" + ", ".join(f'"{c}"' for c in only) + "}"}
+            "OnlyCmds": "{" + ", ".join(f'"{c}"' for c in only) + "}", "Ablation": "TRUE" if ablation else "FALSE"}
 
 
-def behaviours_exhaustive(ctx, menu_path, pre, only=(), max_steps=1):
-    cfg = ctx.cfg(f"mc-cli-{max_steps}-{len(pre)}-{len(only)}", spec="Spec", constants=_consts(max_steps, pre, only),
+def behaviours_exhaustive(ctx, menu_path, pre, only=(), max_steps=1, ablation=False):
+    cfg = ctx.cfg(f"mc-cli-{max_steps}-{len(pre)}-{len(only)}-{int(ablation)}", spec="Spec",
+                  constants=_consts(max_steps, pre, only, ablation),
                   invariants=["DesignOK", "TypeOK", "ReferenceNeverLoses"])
     r = ctx.tlc("MC_Cli", cfg, kind="mc", dump=True, env={"MENU_FILE": menu_path}, timeout=3000, coverage=False)
     require_ok(r, "(design check MC_Cli)")
-    print(f"  [tlc mc MC_Cli pre={pre} only={list(only)}] {r.distinct} states in {r.wall_s:.1f}s violated={r.violated}",
+    print(f"  [tlc mc MC_Cli pre={pre} only={list(only)} ablation={ablation}] {r.distinct} states in {r.wall_s:.1f}s violated={r.violated}",
           file=sys.stderr)
-    ctx.design_checks.append({"module": f"MC_Cli(MaxSteps={max_steps}, Pre={pre}, only={list(only)})", "violated": r.violated,
+    ctx.design_checks.append({"module": f"MC_Cli(MaxSteps={max_steps}, Pre={pre}, only={list(only)}, ablation={ablation})", "violated": r.violated,
                               "states": r.distinct})
     if r.violated:
         raise MachineryError(f"Cli design check failed: {r.violated}\n" + "\n".join(r.stdout.splitlines()[-60:]))
@@ -774,12 +809,16 @@ def behaviours_exhaustive(ctx, menu_path, pre, only=(), max_steps=1):
         text = f.read()
     os.remove(r.dump_path)
     behs = []
+    nstates = 0
     for block in tlaval.iter_dump_blocks(text):
+        nstates += 1
+        if "st |-> 0" not in block[block.find("/\\ pend = "):]:
+            continue                         # a command line still being composed
         h = _hist_of(block)
         if len(h):
             behs.append({"pre": list(pre), "steps": _steps(h)})
-    if len(behs) + 1 != r.distinct:
-        raise MachineryError(f"MC_Cli dump: {len(behs)} behaviours for {r.distinct} distinct states")
+    if nstates != r.distinct:
+        raise MachineryError(f"MC_Cli dump: {nstates} states parsed, TLC reports {r.distinct} distinct states")
     return behs
 
 
@@ -787,7 +826,7 @@ def behaviours_simulated(ctx, menu_path, n, pre, max_steps=4):
     cfg = ctx.cfg(f"sim-cli-{len(pre)}", spec="Spec", constants=_consts(max_steps, pre))
     d = ctx.scratch.sub(f"sim-{len(pre)}")
     ctx.tlc("MC_Cli", cfg, kind="simulate", env={"MENU_FILE": menu_path}, simulate=f"file={d}/tr,num={n}",
-            depth=max_steps + 1, seed=ctx.seed + 1, workers=1, coverage=False, timeout=900)
+            depth=3 * max_steps + 1, seed=ctx.seed + 1, workers=1, coverage=False, timeout=900)
     behs = []
     for name in sorted(os.listdir(d)):
         with open(os.path.join(d, name)) as f:
@@ -810,6 +849,92 @@ def design_counterexamples(ctx, menu_path):
     require_ok(r, "(design check MC_Cli strict)")
     ctx.design_checks.append({"module": "MC_Cli(DesignStrict: no exemption for the listed defects)", "violated": sorted(set(r.violated)),
                               "states": r.distinct})
+
+
+# --------------------------------------------------------------------------- does every flag matter in this world?
+# (option, reason) pairs that cannot change the library result here; everything else must (vacuity guard of the
+# equivalence clause: a flag whose removal leaves the library result unchanged binds nothing)
+NO_EFFECT_EXPECTED = {
+    ("segment", "rscript_path"): "only read by the R methods (cbs, flasso), which are not run",
+    ("segment", "smooth_cbs"): "only read by the cbs method, which is not run",
+    ("segment", "processes"): "results must not depend on the number of worker processes (C10)",
+    ("fix", "cluster"): "the world's references carry no cluster columns",
+    ("fix", "sample_id"): "names the output file and disables the sample-id comparison; the table does not carry it",
+    ("call", "drop_low_coverage"): "segment tables of the world have no very-low-coverage row",
+    ("genemetrics", "diploid_parx_genome"): "shift_xx moves PAR-X bins like the rest of chrX whatever the genome (DESIGN 13.8, "
+                                            "cnary.py shift_xx) and the sex guess of the world's samples does not depend on it",
+}
+NO_EFFECT_EXPECTED.update({("genemetrics", k): "accepted by the parser, no library meaning ('TODO use the stats args')"
+                           for k in ("mean", "median", "mode", "p_ttest", "stdev", "sem", "mad", "mse", "iqr", "bivar", "ci", "pi",
+                                     "alpha", "bootstrap")})
+
+
+PROBE_INPUTS = 3
+
+
+def run_lib_only(item):
+    """library results (digests) of one variant and of its one-flag-removed copies, on the same inputs"""
+    top = tempfile.mkdtemp(prefix="x04-abl-")
+    cwd0 = os.getcwd()
+    out = []
+    try:
+        work = os.path.join(top, "work")
+        os.makedirs(work)
+        build_world(work)
+        os.chdir(work)
+        for k, lib in enumerate(item["libs"]):
+            od = os.path.join(top, f"o{k}")
+            os.makedirs(od)
+            try:
+                with _quiet():
+                    out.append([digest_file(p) for p in _run_lib(lib, od)])
+            except MachineryError:
+                raise
+            except Exception as ex:
+                out.append(["ERR:" + _errname(ex)])
+    finally:
+        os.chdir(cwd0)
+        shutil.rmtree(top, ignore_errors=True)
+    return out
+
+
+def flag_effect_probe(ctx, menu_path, one):
+    M = menu()["variants"]
+    abl = behaviours_exhaustive(ctx, menu_path, [], ablation=True)
+    by_ins = {}
+    for bh in abl:
+        s = bh["steps"][0]
+        by_ins[(s["v"], json.dumps(s["ins"]))] = s
+    choices = {}
+    for bh in one:
+        s = bh["steps"][0]
+        choices.setdefault(s["v"], {})[json.dumps(s["ins"])] = s
+    items, index = [], []
+    for v in sorted(choices):
+        keys = sorted(choices[v])
+        if len(keys) > PROBE_INPUTS:
+            keys = random.Random(1000 + v).sample(keys, PROBE_INPUTS)        # fixed: the guard must not depend on the seed
+        for key in keys:
+            s = choices[v][key]
+            kids = [(k, M[k - 1]) for k in range(1, len(M) + 1) if M[k - 1]["abl"][0] == v and (k, key) in by_ins]
+            if not kids:
+                continue
+            items.append({"libs": [s["lib"]] + [by_ins[(k, key)]["lib"] for k, _m in kids]})
+            index.append((v, [m["abl"][1] for _k, m in kids]))
+    res = fresh_process_map(run_lib_only, items, NCPU, ctx.scratch.sub("abl-out"), timeout=900)
+    effect = {}
+    for (v, idxs), digs in zip(index, res):
+        var = M[v - 1]
+        for i, d in zip(idxs, digs[1:]):
+            key = (var["cmd"], var["flags"][i - 1]["opt"])
+            effect[key] = effect.get(key, False) or d != digs[0]
+    silent = sorted(k for k, eff in effect.items() if not eff)
+    unexpected = [k for k in silent if k not in NO_EFFECT_EXPECTED]
+    ctx.notes["flag_effect_probe"] = {"options_probed": len(effect), "change_the_library_result": sum(effect.values()),
+                                      "no_effect_in_this_world": {f"{c} {o}": NO_EFFECT_EXPECTED.get((c, o), "UNEXPECTED") for c, o in silent}}
+    if unexpected:
+        raise MachineryError(f"vacuity guard: removing these flags does not change the library result in the synthetic world, "
+                             f"so the equivalence clause binds nothing for them: {unexpected}")
 
 
 # --------------------------------------------------------------------------- validation
@@ -995,7 +1120,7 @@ def run(ctx: Ctx):
     M = menu()
     menu_path = _menu_json(ctx.scratch.file("menu.json"))
     ctx.rule = ("behaviours = sequences of <= 4 cnvkit.py command lines generated by TLC from spec/Cli.tla (variant of a menu of "
-                f"{len(M['variants'])} flag combinations x admissible input files x output selector default/new/sub/deep/clash); each is "
+                f"{M['nbase']} flag combinations x admissible input files x output selector default/new/sub/deep/clash); each is "
                 "executed in a fresh process in a fresh working directory (parse_args -> args.func) next to the library call the "
                 "specification derives for it; a case is distinct by its command lines")
     # (a) one command: TLC enumerates every variant x input choice x output selector (design check A |= P)
@@ -1009,20 +1134,12 @@ def run(ctx: Ctx):
         p2, _ = _sample_inputs(ctx, got, 2 if thorough else 1)
         picked += p2
     design_counterexamples(ctx, menu_path)
+    flag_effect_probe(ctx, menu_path, one)
     # (b) behaviours of <= 4 commands (simulation), with and without a pre-existing default reference
     nsim = 600 if thorough else 120
     sim = []
     for pre, share in (([], 2), ([0, 2], 1)):
-        # TLC picks successors uniformly, i.e. mostly commands with many admissible input combinations: draw three times
-        # as many behaviours and keep those with the rarer commands (seeded weighted choice; generation only)
-        pool = behaviours_simulated(ctx, menu_path, nsim * share, pre)
-        freq = {}
-        for bh in pool:
-            for s in bh["steps"]:
-                freq[s["cmd"]] = freq.get(s["cmd"], 0) + 1
-        keyed = sorted(((ctx.rng.random() ** (1.0 / sum(1.0 / freq[s["cmd"]] for s in bh["steps"])), k) for k, bh in enumerate(pool)),
-                       reverse=True)
-        sim += [pool[k] for _w, k in keyed[:nsim * share // 3]]
+        sim += behaviours_simulated(ctx, menu_path, nsim * share // 3, pre)
     # (c) repeated writes of `reference` to one path: k runs leave k files (structured behaviours from the model's menu)
     behs = picked + sim
     seen, uniq = set(), []
@@ -1033,7 +1150,7 @@ def run(ctx: Ctx):
             uniq.append(bh)
     behs = uniq
     ctx.notes["behaviours"] = {"one_command_enumerated": nall, "variant_x_selector_pairs": nkeys, "one_command_executed": len(picked),
-                               "simulated_executed": len(behs) - len(picked), "menu_variants": len(M["variants"]),
+                               "simulated_executed": len(behs) - len(picked), "menu_variants": M["nbase"],
                                "world_files": len(M["world"])}
     for bh in behs:
         ctx.count_input([bh["pre"], [s["argv"] for s in bh["steps"]]], nontrivial=True)
@@ -1043,7 +1160,7 @@ def run(ctx: Ctx):
                     "recorded": [{kk: e[kk] for kk in ("err", "liberr", "lib", "so")} for e in enc[k][1:]]})
     covered = {(M["variants"][s["v"] - 1]["cmd"], f["opt"]) for bh in behs for s in bh["steps"] for f in M["variants"][s["v"] - 1]["flags"]}
     ctx.notes["flags_exercised"] = len(covered)
-    ctx.exhaustive = (f"model: every variant ({len(M['variants'])}) x admissible input files x output selector for one command "
+    ctx.exhaustive = (f"model: every variant ({M['nbase']}) x admissible input files x output selector for one command "
                       f"({nall} states, TLC exhaustive, DesignOK); executed: every variant x selector pair ({nkeys}) with "
                       f"{6 if thorough else 2} input choices each, plus {len(behs) - len(picked)} simulated behaviours of <= 4 commands")
     ctx.trusted_base = ["TLC 1.8", "sha1 of file bytes as content id", "file mtime as the written-during-this-command observation",
